@@ -37,7 +37,7 @@ struct in_pq {
     V_ASSUME(ST_WF(&st)); \
     V_ASSUME(in.allocs0 < 1000 && in.tx0 < 1000); \
     g_led.allocs = in.allocs0; g_led.tx_attempts = in.tx0; g_req.tx_base = in.tx0; \
-    uint8_t *f = in.frame; \
+    V_EXACT_OBJECT(f, in.frame, V_MTU_FIXED); \
     probe_t *head0 = st.see_list; uint32_t count0 = st.see_list_count, live0 = g_led.live; \
     lltd_iface_state o = st; (void)o
 
